@@ -13,7 +13,7 @@ import json
 import re
 
 from simkit import base, driver, world
-from simkit.canon import sort_result, is_exc
+from simkit.canon import sort_result, is_exc, builtin_representative_differs
 
 MT0 = 1_400_000_000 * 10**9
 IDENT = re.compile(r'[A-Za-z_]\w*')
@@ -437,6 +437,9 @@ class C08(base.Engine):
                     continue
                 stats['compared'] += 1
                 if sort_result(a) != sort_result(b):
+                    if builtin_representative_differs(p, sort_result(a), sort_result(b)):
+                        stats['c16_representative_excluded'] += 1      # listed C16 finding, not staleness
+                        continue
                     # is the oracle itself stable?
                     o2 = run_oracle(case, dict(op, probes=[p]), hashseed=case.get('hashseed', 0) + 17)
                     stats['oracle_runs'] += 1
